@@ -592,6 +592,10 @@ def cone_cases(rng, tier, curved_fixed):
         key = ('cone', C.digest(desc))
         if mode == 'matrix':
             m = _rot3(rng)
+            if kind == 'flat' and rng.random() < 0.5:      # accepted non-orthogonal matrices (shear, scaling, general)
+                m = rng.choice([[[2, 0, 0], [0, 1, 0], [0, 0, 3]], [[1, 1, 0], [0, 1, 0], [0, 0, 1]],
+                                [[1, 0, 1], [0, 2, 0], [0, 1, 1]], [[0, -2, 0], [2, 0, 0], [0, 0, 2]],
+                                [[1, 2, 0], [-1, 1, 1], [0, 1, 2]]])
             with_tr = rng.random() < 0.6
             mat = [fl(row) + ([float(t)] if with_tr else []) for row, t in zip(m, tr)]
             trm = tr if with_tr else [0, 0, 0]
@@ -633,6 +637,11 @@ def factory_cases(rng, tier):
         hi = [rng.choice([0.5, 1.0, 2.0, 1.5, 0.25]) for _ in range(3)]
         if rng.random() < 0.3:           # Pythagorean corner: rho rational
             lo[0], hi[0], lo[1], hi[1] = -3.0, 1.0, -4.0, 2.0
+        for ax_ in range(3):             # volumes shifted off the origin (entirely positive / negative ranges)
+            if rng.random() < 0.4:
+                sh_ = rng.choice([-4.0, 3.5, 5.0, -2.5])
+                lo[ax_] += sh_
+                hi[ax_] += sh_
         rho = max(math.hypot(x, y) for x in (lo[0], hi[0]) for y in (lo[1], hi[1]))
         rs = float(math.ceil(rho) + rng.choice([1, 2, 5]))
         rd = rng.choice([0.5, 1.0, 3.0, 4.0])
@@ -871,6 +880,89 @@ def _probe_frommatrix(rng, tier):
     return out
 
 
+def _general_matrices(rng, n, count):
+    """Accepted but non-orthogonal init matrices: scaled rotations, shears, anisotropic scalings, mirrors, general
+    well-conditioned matrices."""
+    from odl.tomo.util.utility import axis_rotation_matrix, euler_matrix
+    out = []
+    while len(out) < count:
+        kind = rng.choice(['scaled-rotation', 'shear', 'scaling', 'general', 'mirror-scaled'])
+        if n == 2:
+            R = euler_matrix(rng.uniform(-3, 3))
+        else:
+            ax = np.array([rng.uniform(-1, 1) for _ in range(3)])
+            R = axis_rotation_matrix(ax / np.linalg.norm(ax), rng.uniform(-3, 3))
+        if kind == 'scaled-rotation':
+            M = rng.choice([0.5, 2.0, 3.5]) * R
+        elif kind == 'shear':
+            M = np.eye(n)
+            i_, j_ = rng.sample(range(n), 2)
+            M[i_, j_] = rng.choice([0.5, -1.5, 2.0])
+            M = R.dot(M)
+        elif kind == 'scaling':
+            M = R.dot(np.diag([rng.choice([0.5, 1.0, 2.0, 3.0]) for _ in range(n)]))
+        elif kind == 'mirror-scaled':
+            d = [rng.choice([0.5, 2.0]) for _ in range(n)]
+            d[rng.randrange(n)] *= -1
+            M = np.diag(d).dot(R)
+        else:
+            M = np.array([[rng.uniform(-2, 2) for _ in range(n)] for _ in range(n)])
+        if np.linalg.cond(M) < 30:
+            out.append((kind, np.round(M, 6)))
+    return out
+
+
+def _probe_frommatrix_general(rng, tier):
+    """frommatrix with NON-orthogonal accepted matrices.  Documented (all five classes): the left block of init_matrix is
+    multiplied with the default vectors to determine the new ones, the last column is a translation applied afterwards,
+    the resulting axes are normalised.  Checked against NumPy M . defaults: stored vectors and the positions at angle 0
+    (where the rotation matrix is the identity)."""
+    import odl
+    out = []
+    pre = ("import numpy as np, odl\nap = odl.uniform_partition(-4.0, 4.0, 8); dp1 = odl.uniform_partition(-4.0, 4.0, 8)\n"
+           "ap2 = odl.uniform_partition([-4.0, -4.0], [4.0, 4.0], [8, 8])\n"
+           "dp2 = odl.uniform_partition([-4.0, -4.0], [4.0, 4.0], [8, 6])\n"
+           "unit = lambda v: np.asarray(v, dtype=float) / np.linalg.norm(v)\n")
+    count = 4 if tier == 'quick' else 14
+    specs = [
+        ('par2d', 2, 'odl.tomo.Parallel2dGeometry.frommatrix(ap, dp1, mat)',
+         "exp = dict(det_pos_init=M.dot([0, 1]) + t, det_axis_init=unit(M.dot([1, 0])), translation=t)\n"
+         "pts = [(g.det_point_position(0.0, 0.75), exp['det_pos_init'] + 0.75 * exp['det_axis_init'])]\n"),
+        ('fan', 2, 'odl.tomo.FanBeamGeometry.frommatrix(ap, dp1, 3.0, 2.0, mat)',
+         "exp = dict(src_to_det_init=unit(M.dot([0, 1])), det_axis_init=unit(M.dot([1, 0])), translation=t)\n"
+         "pts = [(g.src_position(0.0), t - 3.0 * exp['src_to_det_init']),\n"
+         "       (g.det_point_position(0.0, 0.75), t + 2.0 * exp['src_to_det_init'] + 0.75 * exp['det_axis_init'])]\n"),
+        ('par3d', 3, 'odl.tomo.Parallel3dEulerGeometry.frommatrix(ap2, dp2, mat)',
+         "exp = dict(det_pos_init=M.dot([0, 1, 0]) + t, det_axes_init=np.array([unit(M.dot([1, 0, 0])), unit(M.dot([0, 0, 1]))]), translation=t)\n"
+         "pts = [(g.det_point_position((0.0, 0.0), (0.75, -0.5)), exp['det_pos_init'] + 0.75 * exp['det_axes_init'][0] - 0.5 * exp['det_axes_init'][1])]\n"),
+        ('par3a', 3, 'odl.tomo.Parallel3dAxisGeometry.frommatrix(ap, dp2, mat)',
+         "exp = dict(axis=unit(M.dot([0, 0, 1])), det_pos_init=M.dot([0, 1, 0]) + t, det_axes_init=np.array([unit(M.dot([1, 0, 0])), unit(M.dot([0, 0, 1]))]), translation=t)\n"
+         "pts = [(g.det_point_position(0.0, (0.75, -0.5)), exp['det_pos_init'] + 0.75 * exp['det_axes_init'][0] - 0.5 * exp['det_axes_init'][1])]\n"),
+        ('cone', 3, 'odl.tomo.ConeBeamGeometry.frommatrix(ap, dp2, 3.0, 2.0, mat, pitch=1.5)',
+         "exp = dict(axis=unit(M.dot([0, 0, 1])), src_to_det_init=unit(M.dot([0, 1, 0])), det_axes_init=np.array([unit(M.dot([1, 0, 0])), unit(M.dot([0, 0, 1]))]), translation=t)\n"
+         "pts = [(g.src_position(0.0), t - 3.0 * exp['src_to_det_init']),\n"
+         "       (g.det_point_position(0.0, (0.75, -0.5)), t + 2.0 * exp['src_to_det_init'] + 0.75 * exp['det_axes_init'][0] - 0.5 * exp['det_axes_init'][1])]\n")]
+    for key, n, ctor, expect in specs:
+        for kind, M in _general_matrices(rng, n, count):
+            with_t = rng.random() < 0.7
+            tvec = [round(rng.uniform(-2, 2), 3) for _ in range(n)] if with_t else [0.0] * n
+            rp = (pre + "M = np.array(%r); t = np.array(%r)\nmat = %s\ng = %s\n%s"
+                  "bad = [k for k, v in exp.items() if not np.allclose(getattr(g, k), v, atol=1e-9)]\n"
+                  "bad += ['point %%d' %% i for i, (got, want) in enumerate(pts) if not np.allclose(got, want, atol=1e-9)]\n"
+                  "observed = {k: np.asarray(getattr(g, k)).tolist() for k in exp}; expected = {k: np.asarray(v).tolist() for k, v in exp.items()}\n"
+                  "ok = not bad\n" % (M.tolist(), tvec, 'np.hstack([M, t[:, None]])' if with_t else 'M', ctor, expect))
+            env = {}
+            try:
+                exec(rp, env)
+                ok, bad = env['ok'], env['bad']
+            except Exception as e:      # noqa
+                ok, bad = False, repr(e)[:120]
+            out.append(C.Probe(bool(ok), 'frommatrix-nonorthogonal-' + key,
+                               '%s with a %s matrix%s: stored vectors and the positions at angle 0 are M . defaults (+ translation), '
+                               'axes normalised' % (ctor, kind, ' and translation column' if with_t else ''), rp, {'mismatch': str(bad)}))
+    return out
+
+
 def _hit_coords(g, a, X):
     """Detector coordinates at which the ray through X meets a FLAT detector at angle a."""
     ref = g.det_refpoint(a)
@@ -878,12 +970,39 @@ def _hit_coords(g, a, X):
         src = g.src_position(a)
         d = X - src
     else:
-        d = -g.det_to_src(a, 0.0 if g.det_params.ndim == 1 else (0.0, 0.0))
+        mid = g.det_params.mid_pt       # a parameter inside the detector (shifted volumes: 0 may be outside)
+        d = -g.det_to_src(a, float(mid[0]) if g.det_params.ndim == 1 else tuple(float(m_) for m_ in mid))
         src = X
     axes = np.atleast_2d(g.det_axis(a) if hasattr(g, 'det_axis') else g.det_axes(a))
     A = np.column_stack(list(axes) + [-d])
     sol = np.linalg.solve(A, src - ref)
     return sol[:-1]
+
+
+_BOX_KINDS = ['mostly-negative', 'negative', 'mostly-positive', 'positive', 'straddle']
+
+
+def _box(rng, ndim, last=None):
+    """Volume placed asymmetrically about every axis: per axis straddling the origin, entirely negative, entirely
+    positive, or straddling with the larger part negative."""
+    lo, hi = [], []
+    for ax_ in range(ndim):
+        kind = rng.choice(_BOX_KINDS)
+        if last is not None and ax_ == ndim - 1:
+            kind = last                 # placement of the last axis (z) cycled deterministically by the caller
+        if kind == 'straddle':
+            a, b = rng.uniform(-2, -0.5), rng.uniform(0.5, 2)
+        elif kind == 'negative':
+            a, b = rng.uniform(-3, -2), rng.uniform(-1.5, -0.5)
+        elif kind == 'positive':
+            a, b = rng.uniform(0.5, 1.5), rng.uniform(2, 3)
+        elif kind == 'mostly-negative':
+            a, b = rng.uniform(-3, -2), rng.uniform(0.3, 1)
+        else:
+            a, b = rng.uniform(-1, -0.3), rng.uniform(2, 3)
+        lo.append(round(a, 2))
+        hi.append(round(b, 2))
+    return lo, hi
 
 
 def _probe_factories(rng, tier):
@@ -895,8 +1014,7 @@ def _probe_factories(rng, tier):
     reps = 2 if tier == 'quick' else 6
     for _ in range(reps):
         for ndim in (2, 3):
-            lo = [round(rng.uniform(-2, -0.5), 2) for _ in range(ndim)]
-            hi = [round(rng.uniform(0.5, 2), 2) for _ in range(ndim)]
+            lo, hi = _box(rng, ndim)
             shape = [rng.randint(4, 12) for _ in range(ndim)]
             rho = float(np.max(np.linalg.norm(np.array([[x, y] for x in (lo[0], hi[0]) for y in (lo[1], hi[1])]), axis=1)))
             rs = round(rho * rng.uniform(1.2, 4), 2)
@@ -1225,10 +1343,9 @@ def _probe_factory_attributes(rng, tier):
     import odl
     out = []
     pre = ("import numpy as np, odl, sys\nsys.path.insert(0, %r)\nfrom harness.c19 import _hit_coords\n" % C.VERIF)
-    reps = 3 if tier == 'quick' else 10
-    for _ in range(reps):
-        lo = [round(rng.uniform(-2, -0.5), 2) for _ in range(3)]
-        hi = [round(rng.uniform(0.5, 2), 2) for _ in range(3)]
+    reps = 5 if tier == 'quick' else 10          # every placement of the z range at least once
+    for rep in range(reps):
+        lo, hi = _box(rng, 3, _BOX_KINDS[rep % len(_BOX_KINDS)])
         shape = [rng.randint(4, 9) for _ in range(3)]
         rho = float(np.max(np.linalg.norm(np.array([[x, y] for x in (lo[0], hi[0]) for y in (lo[1], hi[1])]), axis=1)))
         big, small = round(rho * rng.uniform(2.5, 4), 2), round(rho * rng.uniform(1.1, 1.8), 2)
@@ -1302,6 +1419,34 @@ def _probe_factory_attributes(rng, tier):
                     ok, obs = env['ok'], env['worst']
                 except Exception as e:      # noqa
                     ok, obs = False, repr(e)
+                if fkey == 'cone_beam_geometry-3d':
+                    # vertical extent, z-min and z-max face separately.  For the height formula on HEAD,
+                    # h/2 >= (rs+rd) zm / sqrt((rs-rho)^2 + zm^2) with zm = max(|z_min|, |z_max|), every point with
+                    # rs + xn >= sqrt((rs-rho)^2 + zm^2) (xn = coordinate along the central ray) projects inside
+                    # vertically; this instance is not masked by the open vertical-coverage finding.
+                    for face, zval in (('zmin', lo[2]), ('zmax', hi[2])):
+                        rpv = head + (
+                            "rs, rd = g.src_radius, g.det_radius\n"
+                            "rho = max(np.hypot(x, y) for x in (space.min_pt[0], space.max_pt[0]) for y in (space.min_pt[1], space.max_pt[1]))\n"
+                            "zm = max(abs(space.min_pt[2]), abs(space.max_pt[2])); need = np.hypot(want['rs'] - rho, zm)\n"
+                            "hi_ = float(g.det_params.max_pt[1]); lo_ = float(g.det_params.min_pt[1]); worst = 0.0; used = 0\n"
+                            "for a in g.angles:\n    src = g.src_position(a); ref = g.det_refpoint(a)\n"
+                            "    central = (ref - src)[:2] / np.linalg.norm((ref - src)[:2])\n"
+                            "    for X in space.domain.corners():\n"
+                            "        if X[2] != %r or want['rs'] + np.dot(X[:2], central) < need + 1e-9:\n            continue\n"
+                            "        used += 1; v = _hit_coords(g, a, X)[1]\n"
+                            "        worst = max(worst, (v - hi_) / (hi_ - lo_), (lo_ - v) / (hi_ - lo_))\n"
+                            "observed = [worst, used]; expected = 'relative overshoot <= 1e-9'; ok = bool(worst <= 1e-9)\n" % zval)
+                        env = {}
+                        try:
+                            exec(rpv, env)
+                            okv, obsv = env['ok'], env['observed']
+                        except Exception as e:      # noqa
+                            okv, obsv = False, repr(e)
+                        out.append(C.Probe(bool(okv), 'factory-vertical-coverage-%s-face-cone_beam_geometry-3d' % face,
+                                           '%s on z in [%r, %r]: corners of the %s face far enough along the central ray project '
+                                           'inside the detector vertically' % (ctor, lo[2], hi[2], face), rpv,
+                                           {'overshoot, corners used': obsv}))
                 out.append(C.Probe(bool(ok), 'factory-far-half-coverage-' + fkey,
                                    '%s: every volume corner on the detector side of the axis projects inside the detector '
                                    '(horizontally), from the returned geometry\'s own source and detector positions' % ctor, rp,
@@ -1314,9 +1459,8 @@ def _probe_misc(rng, tier):
     T = odl.tomo
     out = []
     # helical_geometry: the source travels exactly from the bottom to the top of the volume
-    for _ in range(2 if tier == 'quick' else 5):
-        lo = [round(rng.uniform(-2, -0.5), 2) for _ in range(3)]
-        hi = [round(rng.uniform(0.5, 2), 2) for _ in range(3)]
+    for rep in range(5):
+        lo, hi = _box(rng, 3, _BOX_KINDS[rep])
         turns = rng.choice([1, 2, 3.5])
         rp = ("import numpy as np, odl\nspace = odl.uniform_discr(%r, %r, [6, 6, 6])\n"
               "g = odl.tomo.helical_geometry(space, 9.0, 3.0, num_turns=%r)\n"
@@ -1506,12 +1650,29 @@ def probes(rng, tier):
                                        None))
     out.extend(_probe_slicing(rng, tier))
     out.extend(_probe_frommatrix(rng, tier))
+    out.extend(_probe_frommatrix_general(rng, tier))
     out.extend(_probe_factories(rng, tier))
     out.extend(_probe_factory_attributes(rng, tier))
     out.extend(_probe_misc(rng, tier))
     out.extend(_probe_curved(rng, tier))
     out.extend(_probe_shapes(rng, tier))
     return out
+
+
+def search(rng, broken):
+    """Called by the driver when a proof / translator / correspondence obligation broke and no probe of the regular run
+    failed: run the oracle families that speak about the anchored formulas on fresh, larger samples and return the
+    first concrete failing input."""
+    known = C.load_findings(PID)
+    for fam in (_probe_frommatrix_general, _probe_frommatrix, _probe_curved, _probe_factory_attributes, _probe_factories,
+                _probe_slicing, _probe_shapes, _probe_misc):
+        try:
+            for p in fam(rng, 'thorough'):
+                if not p.ok and p.key not in known:
+                    return p
+        except Exception:       # noqa
+            continue
+    return None
 
 
 RULE = ('6 case sets (utility functions, Parallel2d, Parallel3dAxis/Euler, FanBeam, ConeBeam, factories: rho, half width, '
